@@ -50,6 +50,9 @@ SHAPES = [
     "lambda e: e.js.Select(lambda j, /, *, cap=cap: j + cap).Count() + cap",
     "lambda e: e.js.Select(lambda *gcap, **G_CAP: (gcap, G_CAP, cap)).Count() + G_CAP + gcap",
     "lambda e: (lambda cap, /: cap + 1)(e.x) + cap + e.js.Select(lambda j, gcap=gcap: j + gcap)",
+    # a method is called on the captured value (the value is frozen, the method call stays)
+    "lambda e: e.f(cap.__str__()) + e.g(gcap.__repr__(), G_CAP.bit_length())",
+    "lambda e: e.js.Select(lambda j: j.name == cap.__str__()) if G_CAP.bit_length() > 1 else cap",
     # names bound by an assignment expression are local to the lambda they are in
     "lambda e: (cap := e.x) + cap + G_CAP",
     "lambda e: e.js.Select(lambda j: (gcap := j.pt) + gcap) if cap > 0 else gcap",
@@ -130,7 +133,7 @@ def uses(src_tree, env, v):
 
 def c04(code: int, alt: int, hist: int, v: Val, g: int, v2: int) -> str:
     """
-    pre: LO <= code < HI and 0 <= code < 32
+    pre: LO <= code < HI and 0 <= code < 34
     pre: 0 <= alt <= 6 and 0 <= hist <= 3
     pre: not isinstance(v, str) or len(v) <= 3
     pre: not isinstance(v, bytes) or len(v) <= 3
